@@ -17,11 +17,11 @@ import (
 
 type modelSchema struct {
 	canonNaN bool // render every NaN as one token (decoded values pass through float64, which quiets signalling NaNs)
-	index map[protoreflect.FullName]int
-	mds   []protoreflect.MessageDescriptor
-	text  string
-	ok    bool // false: uses a feature the model does not cover (extensions, groups)
-	foreign bool // contains a message type without generated code (well-known types): decoded by the runtime
+	index    map[protoreflect.FullName]int
+	mds      []protoreflect.MessageDescriptor
+	text     string
+	ok       bool // false: uses a feature the model does not cover (extensions, groups)
+	foreign  bool // contains a message type without generated code (well-known types): decoded by the runtime
 }
 
 // visitOrder: declared fields that are not members of a real oneof, then the members of each real oneof
